@@ -2,9 +2,9 @@
 from reg._common import COMMON_ASSUME
 
 ENTRY = {
-    'extractors': ['translate_py.py'],
-    'lean_files': ['Tables/SrcPyClassify.lean', 'Tables/C06.lean', 'Props/C06.lean', 'Props/C06WalkBook.lean', 'Props/C06Walk.lean'],
-    'lemma_files': ['Model/Walk.lean', 'Lemmas/Walk.lean', 'Lemmas/WalkBook.lean', 'Model/Triangle.lean', 'Model/Geometric.lean', 'Model/GeometricInst.lean', 'Model/Helpers.lean', 'Lemmas/Classify.lean', 'Lemmas/Bridge.lean', 'Model/Basic.lean', 'Model/Curve.lean', 'Model/Classify.lean'],
+    'extractors': ['translate_py.py', 'translate_f90.py'],
+    'lean_files': ['Tables/SrcF90Classify.lean', 'Tables/SrcPyClassify.lean', 'Tables/C06.lean', 'Props/C06.lean', 'Props/C06WalkBook.lean', 'Props/C06Walk.lean'],
+    'lemma_files': ['Lemmas/ClassifyF90.lean', 'Model/Walk.lean', 'Lemmas/Walk.lean', 'Lemmas/WalkBook.lean', 'Model/Triangle.lean', 'Model/Geometric.lean', 'Model/GeometricInst.lean', 'Model/Helpers.lean', 'Lemmas/Classify.lean', 'Lemmas/Bridge.lean', 'Model/Basic.lean', 'Model/Curve.lean', 'Model/Classify.lean'],
     'script': 'props/c06.py',
     'scripts': ['props/c06.py', 'props/c06w.py'],
     'rule': '(a) every ordered pair of positively oriented lattice triangles on the 3x3 grid (76 triangles, 5 776 pairs, degree 1, '
